@@ -54,6 +54,29 @@ def extract(repo):
     encs = [[c for c in _sc._enclosing(cb, p) if c[0] == "if"][-1][1] for p in md]
     if encs != ["(!sameSchema(ent,super))&&(super->search_id!=PROCESSED)", "checkItem(attr->type,ent,schema,&ignore,0)"]:
         raise ValueError(f"checkEnts: markDescs is no longer called exactly for a foreign unprocessed supertype and for checkItem(attr) = true: {encs}")
+    # the sweep loop of checkTypes: do { unknowncnt = 0; SCOPEdo_types … } while( <condition> );
+    ct = _sc._blank_strings(_sc._func_body(src, r"static\s+bool\s+checkTypes\s*\(\s*Schema\s+schema\s*\)\s*\{"))
+    m = re.search(r"\bdo\s*\{\s*unknowncnt\s*=\s*0\s*;", ct)
+    w = list(re.finditer(r"\}\s*while\s*\(([^;]*)\)\s*;", ct))
+    if not m or len(w) != 1 or w[0].start() < m.start():
+        raise ValueError("checkTypes: the `do { unknowncnt = 0; … } while( … );` sweep loop was not found")
+    cond = re.sub(r"\s+", "", w[0].group(1))
+    if cond == "unknowncnt>0":
+        loop = ".untilSettled"
+    else:
+        mm = re.fullmatch(r"unknowncnt>0&&\+\+(\w+)<(\w+)", cond)
+        if not mm:
+            raise ValueError("checkTypes: unsupported sweep-loop condition: " + cond)
+        bound = mm.group(2)
+        if not bound.isdigit():
+            d = re.search(r"#define\s+" + bound + r"\s+(\d+)", src)
+            if not d:
+                raise ValueError("checkTypes: cannot resolve the sweep bound " + bound)
+            bound = d.group(1)
+        loop = f".bounded {bound}"
+    ci = re.sub(r"\s+", "", _sc._blank_strings(_sc._func_body(src, r"static\s+bool\s+checkItem\s*\(\s*Type\s+t\s*,")))
+    if ci.count("if(parent->search_id==NOTKNOWN){(*unknowncnt)--;}") != 3 or ci.count("if(parent->search_id!=NOTKNOWN){parent->search_id=NOTKNOWN;(*unknowncnt)++;}") != 1:
+        raise ValueError("checkItem: the unknowncnt bookkeeping (three guarded decrements, one guarded increment) changed")
     text = f"""/- GENERATED by tools/extract.d/cxxpass.py from src/exp2cxx/multpass.c — do not edit. -/
 namespace StepModel.Generated.CxxPass
 
@@ -65,6 +88,14 @@ inductive EnumLastCase where
   deriving DecidableEq, Repr
 
 def enumLastCase : EnumLastCase := .{last}
+
+/-- when the sweep loop of `checkTypes` (`do {{ unknowncnt = 0; … }} while( … )`) stops -/
+inductive SweepLoop where
+  | untilSettled            -- while( unknowncnt > 0 ): runs until a sweep leaves nothing undecided
+  | bounded (n : Nat)       -- additionally stops after n sweeps, whatever is still undecided
+  deriving DecidableEq, Repr
+
+def sweepLoop : SweepLoop := {loop}
 
 end StepModel.Generated.CxxPass
 """
